@@ -150,7 +150,7 @@ NOWORK = [("conv1d", (1,)), ("conv_single_noncons", (2, 3)), ("conv_single_cons"
 
 
 def work_strata(tier):
-    ns = {1: [8, 9, 12, 16, 18], 2: [8, 9, 12], 3: [6, 8, 9]} if tier == "quick" else {1: list(range(6, 31, 1)), 2: list(range(6, 19)), 3: list(range(6, 14))}
+    ns = {1: [8, 9, 12, 16, 18], 2: [8, 9, 12, 16], 3: [6, 8, 9]} if tier == "quick" else {1: list(range(6, 31, 1)), 2: list(range(6, 19)), 3: list(range(6, 14))}
     return [dict(id="%s-D%d-N%d" % (v, D, N), v=v, D=D, N=N) for v, dims in NOWORK for D in dims for N in ns[D]]
 
 
@@ -468,7 +468,7 @@ def eql_check(case):
 
 SUBS = [
     Sub("mean", mean_check, strata=mean_strata, strategy=mean_strategy, n=(2, 10)),
-    Sub("no_work", work_check, strata=work_strata, strategy=work_strategy, n=(5, 12)),
+    Sub("no_work", work_check, strata=work_strata, strategy=work_strategy, n=(8, 20)),
     Sub("equilibria", eq_check, strata=eq_strata, strategy=eq_strategy, n=(3, 12)),
     Sub("equilibria_lattice", eql_check, strata=eql_strata, strategy=eql_strategy, n=(8, 80)),
 ]
